@@ -2,6 +2,7 @@ import PqModel.Layout
 import PqModel.ThriftWriteProofs
 import PqModel.FooterLayout
 import PqModel.FileMetaTrees
+import PqModel.BloomPlaceLength
 
 /-! # C02 — Every written file is well-formed Parquet (layout accounting) -/
 namespace PqModel.Props.C02
@@ -183,5 +184,37 @@ theorem sorting_columns_round_trip (columns : List WVal) (totalByteSize numRows 
 example : WfF 0 (rowGroupFields [] 100 3 [(2, true, false), (0, false, true)] false 4 90 0) = true := by decide
 
 end Meta
+
+/-! ## bloom filter sections written at the end of the file (`DeferBloomFiltersWithBuffers`) -/
+section BloomLength
+open PqModel.BloomPlace
+
+/-- **`bloom_filter_offset` / `bloom_filter_length` of deferred filters** (MIRROR
+    `writeDeferredBloomFilters`, the code as it is): for every list of buffered sections with
+    pairwise distinct (row group, column), appended to any file written so far, the metadata of each
+    chunk names a region that lies inside the file, has the length of the chunk's OWN section and
+    holds exactly its bytes — any number of filters, any section lengths. -/
+theorem deferred_bloom_sections_named (bufs : List Buffered) (out : List UInt8) (m : MetaTab)
+    (h : (bufs.map bkey).Nodup) :
+    ∀ b ∈ bufs,
+      Names (flushDeferred (bufs.map (fun b => (b.1, b.2.1, b.2.2.length))) out.length m).2
+        (out ++ bufs.flatMap (·.2.2)) b :=
+  (flushDeferred_spec bufs out m h).2.1
+
+example : ([((0 : Nat), (0 : Nat), [(1 : UInt8), 2, 3]), (0, 1, [4, 5]), (1, 0, [6])].map bkey).Nodup := by decide
+
+/-- C02-5a (seeded): with `bloomFilterOffset := w.writer.offset` taken once before the loop of
+    `writeDeferredBloomFilters`, the offsets stay right and the first length too, but every later
+    filter announces a length measured from the start of the FIRST deferred filter (3+5, 3+5+4
+    instead of 5, 4): the spec reader's clause `bloom_filter_length` = header + bitset fails from
+    the second filter on. Last two conjuncts: the loop as it is. -/
+theorem deferred_start_taken_once_lengths_cumulative :
+    let evs := [Ev.data 4, .filter 0 0 3 true, .filter 0 1 5 true, .data 4, .filter 1 1 4 true, .flush]
+    let s := evs.foldl stepHoisted pinit
+    s.tab 0 0 = some ⟨8, 3⟩ ∧ s.tab 0 1 = some ⟨11, 8⟩ ∧ s.tab 1 1 = some ⟨16, 12⟩ ∧
+    (run evs).tab 0 1 = some ⟨11, 5⟩ ∧ (run evs).tab 1 1 = some ⟨16, 4⟩ := by
+  decide
+
+end BloomLength
 
 end PqModel.Props.C02
